@@ -9,9 +9,10 @@
 \*     registration) of the same event (TriggerEvent on the owning module, or InjectEvent aimed at
 \*     it), at most once per pair, and it receives exactly the data value given to that call.
 \*  E2 delivery.  If the triggering module and the hooking module are "online soon" when the event
-\*     is triggered (not stopped; enabled when module management is on) and neither is stopped
-\*     afterwards, every hook registered before the call is executed exactly once, as soon as both
-\*     modules are online - in particular:
+\*     is triggered (not stopped; under module management: enabled, or needed as a dependency of an
+\*     enabled module) and neither is stopped afterwards, every hook registered before the call is
+\*     executed exactly once, as soon as both modules are online - also while a management pass
+\*     (ManageModules) that leaves both modules running is in progress - and in particular:
 \*  E3 delayed delivery ("Whenever a hook is triggered and the receiving module has not yet fully
 \*     started, hook execution will be delayed until the modules completed starting").  An event
 \*     triggered while the source or the hooking module is still prepared/offline or starting is
@@ -25,9 +26,10 @@
 \*     online soon, and nil otherwise; RegisterEventHook returns an error for an unknown module or
 \*     event (and registers nothing) and nil otherwise.  Registering an event twice keeps the first.
 \*  E6 stopped modules (C05: "events triggered on a stopped module are not executed").  An event
-\*     triggered on a module whose stop has completed (or that is disabled under module
-\*     management) runs no hook; a hook of a module that is stopped/disabled from the trigger until
-\*     the end is not run, the other hooks are.
+\*     triggered on a module whose stop has completed (or that was never started and is disabled
+\*     under module management) runs no hook; a hook of a module that is in that condition from the
+\*     trigger until the end is not run, the other hooks are.  (A module that is disabled but still
+\*     running: silent.)
 \*  E7 subscription.  SetEventSubscriptionFunc's function is called exactly once per accepted
 \*     trigger of a registered event with (owning module, event name, internal = not exposed, data)
 \*     - for InjectEvent with the target's names - and never for unknown events or rejected calls.
@@ -43,6 +45,9 @@
 EXTENDS Integers, Sequences, FiniteSets, TLC
 
 AbsInit0 == [mgmt |-> FALSE, subscribed |-> FALSE, mods |-> {}, phase |-> <<>>, ever |-> <<>>, en |-> <<>>,
+             dep |-> <<>>,     \* module -> set of modules it depends on
+             den |-> <<>>,     \* module -> enabled as a dependency (as computed by the last Start/ManageModules call)
+             chg |-> {},       \* modules whose dependency flag is being changed by the running call
              locked |-> FALSE, call |-> "none",
              evs |-> <<>>,     \* <<module, event>> -> [internal]
              hooks |-> <<>>,   \* hook id -> [h, key]
@@ -56,7 +61,10 @@ ToSet(s) == {s[i] : i \in 1..Len(s)}
 \*   starting  inside its start routine                 maybe     start routine returned, pass still running
 \*   online    the pass that started it has returned    stopping  a pass that stops it is running
 \*   stopped   that pass has returned                   unknown   anything else
-OS(ab, m) == IF ab.mgmt /\ ~ab.en[m] THEN "F"
+OS(ab, m) == IF m \in ab.chg THEN "U" ELSE
+             IF ab.mgmt /\ ~ab.en[m] /\ ~ab.den[m]
+             THEN \* disabled: certainly not "online soon" when it is not running either; silent while it still runs
+                  IF ab.phase[m] \in {"fresh", "stopped"} THEN "F" ELSE "U"
              ELSE CASE ab.phase[m] \in {"fresh", "starting", "maybe", "online"} -> "T"
                     [] ab.phase[m] = "prestart" -> IF ab.ever[m] THEN "U" ELSE "T"
                     [] ab.phase[m] = "stopped" -> "F"
@@ -71,8 +79,10 @@ Degrade(old, new) ==
         IF o.n = 0 /\ o.st \in {"must", "not"} /\ (new.trigs[p[1]].src \in ch \/ new.hooks[p[2]].h \in ch)
         THEN [o EXCEPT !.st = "may"] ELSE o]]
 
-AInit(mgmt, mods, subscribed) ==
+AInit(mgmt, mods, deps, subscribed) ==
     {[AbsInit0 EXCEPT !.mgmt = mgmt, !.subscribed = subscribed, !.mods = ToSet(mods),
+                      !.dep = [m \in ToSet(mods) |-> ToSet(deps[CHOOSE i \in 1..Len(mods) : mods[i] = m])],
+                      !.den = [m \in ToSet(mods) |-> FALSE],
                       !.phase = [m \in ToSet(mods) |-> "fresh"],
                       !.ever = [m \in ToSet(mods) |-> FALSE],
                       !.en = [m \in ToSet(mods) |-> FALSE]]}
@@ -83,15 +93,21 @@ SetEnabled(ab, m, v) ==
 
 \* a lifecycle pass is invoked (the event is written before the call; the driver goes on only after it
 \* has seen that Start() locked the module system)
+RECURSIVE AClo(_, _)
+AClo(ab, S) == LET T == S \cup UNION {ab.dep[m] : m \in S} IN IF T = S THEN S ELSE AClo(ab, T)
 Call(ab, kind) ==
     IF ab.call # "none" THEN {} ELSE
-    LET wanted(m) == ~ab.mgmt \/ ab.en[m]
+    LET \* Start and ManageModules recompute which modules are enabled as a dependency of an enabled module
+        needed == AClo(ab, UNION {ab.dep[m] : m \in {x \in ab.mods : ab.en[x]}})
+        den == IF ab.mgmt /\ kind \in {"start", "manage"} THEN [m \in ab.mods |-> m \in needed] ELSE ab.den
+        wanted(m) == ~ab.mgmt \/ ab.en[m] \/ den[m]
         ph(m) == CASE kind = "start" /\ wanted(m) /\ ab.phase[m] = "fresh" -> "prestart"
                    [] kind = "manage" /\ wanted(m) /\ ab.phase[m] \in {"fresh", "stopped"} -> "prestart"
                    [] kind = "manage" /\ ~wanted(m) /\ ab.phase[m] = "online" -> "stopping"
                    [] kind = "shutdown" /\ ab.phase[m] = "online" -> "stopping"
                    [] OTHER -> ab.phase[m]
         n == [ab EXCEPT !.call = kind, !.locked = TRUE, !.phase = [m \in ab.mods |-> ph(m)],
+                        !.den = den, !.chg = {m \in ab.mods : den[m] # ab.den[m]},
                         !.ever = [m \in ab.mods |-> ab.ever[m] \/ ph(m) = "stopping"]]
     IN {Degrade(ab, n)}
 
@@ -104,7 +120,7 @@ Ret(ab, kind) ==
                    [] ab.phase[m] = "stopping" -> "stopped"
                    [] ab.phase[m] \in {"prestart", "starting"} -> "unknown"
                    [] OTHER -> ab.phase[m]
-    IN {Degrade(ab, [ab EXCEPT !.call = "none", !.phase = [m \in ab.mods |-> ph(m)]])}
+    IN {Degrade(ab, [ab EXCEPT !.call = "none", !.chg = {}, !.phase = [m \in ab.mods |-> ph(m)]])}
 
 RegEvent(ab, m, ev, expose) ==
     IF m \notin ab.mods THEN {} ELSE
@@ -195,7 +211,7 @@ Sync(ab) == IF Settled(ab) THEN {ab} ELSE {}
 
 \* dispatcher over observed events (records; only the fields of the event kind are read)
 Apply(ab, ev) ==
-    CASE ev.e = "init"     -> AInit(ev.mgmt, ev.mods, ev.sub)
+    CASE ev.e = "init"     -> AInit(ev.mgmt, ev.mods, ev.deps, ev.sub)
       [] ev.e = "enable"   -> SetEnabled(ab, ev.m, TRUE)
       [] ev.e = "disable"  -> SetEnabled(ab, ev.m, FALSE)
       [] ev.e = "call"     -> Call(ab, ev.kind)
